@@ -172,6 +172,19 @@ def strata(tier):
     for j, rl in enumerate(([s1, s2], [s1, s2, s3], [s3, s3, s1, s2])):
         for ss in (1, 3, 0):
             yield {"kind": "yaml", "rules": rl, "sseed": ss, "doc": {"a": "5", "b": ["1", 5, "y"], "c": "true"}, "file": ss == 3, "block": False}
+    # a path and a modifier path derived from it, both used as arguments in one schema (through the API: ONE base object)
+    Pi = {"$path": PC.mkpath([{"p": "prim", "v": "items"}])}
+    Pl = {"$path": dict(PC.mkpath([{"p": "prim", "v": "items"}]), datum="length")}
+    Pf = {"$path": dict(PC.mkpath([{"p": "prim", "v": "items"}, {"p": "list"}]), multi="first")}
+    Pa = {"$path": PC.mkpath([{"p": "prim", "v": "items"}, {"p": "list"}])}
+    q1 = {"path": PC.mkpath([{"p": "prim", "v": "x"}]), "cond": PC.L("value", "in_", Pi), "cast": None, "doc_spec": None}
+    q2 = {"path": PC.mkpath([{"p": "prim", "v": "n"}]), "cond": PC.L("value", "equal_to", Pl), "cast": None, "doc_spec": None}
+    q3 = {"path": PC.mkpath([{"p": "prim", "v": "x"}]), "cond": PC.L("value", "greater_than", Pf), "cast": None, "doc_spec": None}
+    q4 = {"path": PC.mkpath([{"p": "prim", "v": "x"}]), "cond": PC.L("value", "in_", Pa), "cast": None, "doc_spec": None}
+    q5 = {"path": PC.mkpath([{"p": "prim", "v": "items"}]), "cond": PC.L("value", "equal_to", 3, pre="length"), "cast": None, "doc_spec": None}
+    for j, rl in enumerate(([q1, q2], [q2, q1], [q4, q3], [q3, q4, q1, q2], [q5, q1, q2], [q5, q2])):
+        for mode in ("shared", None, "looked-at"):
+            yield {"kind": "yaml", "rules": rl, "sseed": j, "doc": {"items": [1, 2, 3], "n": 3, "x": 2}, "file": False, "block": False, "_objmode": mode}
     # the same rule listed twice (identical entries, entries differing only in doc, with another rule in between)
     d1 = {"path": PC.mkpath([{"p": "prim", "v": "a"}]), "cond": PC.L("value", "is_instance", {"$type": "int"}), "cast": None, "doc_spec": "first"}
     d2 = dict(d1, doc_spec="second")
@@ -661,7 +674,7 @@ def run_yaml(case, ctx):
     if not rt_ok:
         ctx.count("skipped:yaml-cannot-represent")
         return
-    ok, api = call(lambda: valida.Schema([build.rule_obj(r) for r in rules]))
+    ok, api = call(build.schema_obj, rules)
     if not ok:
         ctx.violate(f"C10/yaml/api-construct:{api.type}", f"{api!r}")
         return
